@@ -34,11 +34,7 @@ use verif_harness::rng::Rng;
 use verif_harness::world::{self, keypair, make_block, make_genesis, Node, Params};
 
 const ID_EDGE: &str = "window-edge-shortfall";
-const ID_WRAP: &str = "request-wrap-release";
 const ID_CAP: &str = "input-cap-255";
-const ID_STALE: &str = "unwind-stale-coordinates";
-const ID_BOUND: &str = "bound-input-reselected";
-const ID_SNAPSHOT: &str = "snapshot-keeps-staking-set";
 
 type Rows = Vec<Vec<u64>>;
 type K6 = [u64; 6];
@@ -317,6 +313,7 @@ fn do_create(
     committed: &mut BTreeSet<SaitoUTXOSetKey>,
     dbg: bool,
 ) -> Result<Option<Transaction>, ()> {
+    let _ = dbg;
     let order: Vec<SaitoUTXOSetKey> = w.unspent_slips.iter().cloned().collect();
     let pre = w.clone();
     let keys_n: Vec<u64> = call.keys.iter().map(|k| tab.pk(k)).collect();
@@ -428,7 +425,6 @@ fn do_create(
                 .cloned()
                 .collect();
             let cap = selected.len() > 255;
-            let stale = selected.iter().any(|k| !key_fields_match(&pre, k));
             for k in &selected {
                 committed.insert(*k);
             }
@@ -503,13 +499,9 @@ fn do_create(
             }
             if !bad.is_empty() {
                 // what each listed finding explains
-                let classes: [(bool, &'static str, &[Chk]); 4] = [
+                let classes: [(bool, &'static str, &[Chk]); 2] = [
                     (edge, ID_EDGE, &[Chk::Exceed, Chk::Conserve, Chk::Validate]),
-                    (wrap && !dbg, ID_WRAP, &[Chk::Exceed, Chk::Conserve, Chk::Validate]),
                     (cap, ID_CAP, &[Chk::Exceed, Chk::Conserve, Chk::Commit, Chk::Validate]),
-                    // two outputs spent by one transaction get the same stale block id / index: equal amount and
-                    // slip index then give the same computed input twice
-                    (stale, ID_STALE, &[Chk::NotUnspent, Chk::Dup, Chk::Validate]),
                 ];
                 for (chk, what) in &bad {
                     match classes.iter().find(|(holds, _, explains)| *holds && explains.contains(chk)) {
@@ -723,7 +715,7 @@ impl Sim {
         if with_ledger {
             match check_ledger(&self.w, &self.utxo, self.maxseen, self.gp, &self.committed, self.rec.unwinds > 0) {
                 Ok(()) => {}
-                Err((true, m)) => self.rec.known.push((ID_STALE, format!("after {}: {}", ctx, m))),
+                Err((true, m)) => self.rec.failures.push(format!("after {} (stale coordinates): {}", ctx, m)),
                 Err((false, m)) => self.rec.failures.push(format!("after {}: {}", ctx, m)),
             }
         }
@@ -1060,13 +1052,7 @@ fn bound_probe(sim: &mut Sim, rng: &mut Rng, rt: &tokio::runtime::Runtime, depos
     for (s, key) in tx.from.iter().zip(in_keys.iter()) {
         if s.amount > 0 && !pre.unspent_slips.contains(key) {
             let m = "create_bound_transaction: an input is not an output the wallet listed as unspent".to_string();
-            // top-up slips come from generate_slips: stale coordinates after an unwind
-            let stale = pre.unspent_slips.iter().any(|q| !sim.w.unspent_slips.contains(q) && !key_fields_match(&pre, q));
-            if stale {
-                sim.rec.known.push((ID_STALE, m));
-            } else {
-                sim.rec.failures.push(m);
-            }
+            sim.rec.failures.push(m);
         }
         if s.amount > 0 && sim.w.unspent_slips.contains(key) {
             bound_defect.push(format!(
@@ -1105,7 +1091,7 @@ fn bound_probe(sim: &mut Sim, rng: &mut Rng, rt: &tokio::runtime::Runtime, depos
         }
     }
     for d in bound_defect {
-        sim.rec.known.push((ID_BOUND, d));
+        sim.rec.failures.push(d);
     }
     // the transaction lands in the next block; the wallet records the NFT
     let mut t2 = tx.clone();
@@ -1484,13 +1470,7 @@ fn case_raw(rng: &mut Rng, dbg: bool, len: usize, rt: &tokio::runtime::Runtime) 
                         let uniq: BTreeSet<&SaitoUTXOSetKey> = ks.iter().collect();
                         if uniq.len() != ks.len() {
                             let m = "staking transaction references the same output twice".to_string();
-                            // update_from_balance_snapshot files a BlockStake slip under unspent_slips
-                            // while the old staking_slips entry survives: selected from both sets
-                            if pre.staking_slips.iter().any(|k| pre.unspent_slips.contains(k)) {
-                                sim.rec.known.push((ID_SNAPSHOT, m));
-                            } else {
-                                sim.rec.failures.push(m);
-                            }
+                            sim.rec.failures.push(m);
                         }
                         let sin: u128 = tx.from.iter().map(|s| s.amount as u128).sum();
                         let sout: u128 = tx.to.iter().map(|s| s.amount as u128).sum();
@@ -1630,8 +1610,11 @@ fn case_scripted(which: u64, dbg: bool, rt: &tokio::runtime::Runtime) -> Rec {
                 sim.rec.push(vec![op], rows);
                 let ks: Vec<SaitoUTXOSetKey> = tx.from.iter().map(|s| s.utxoset_key).collect();
                 let uniq: BTreeSet<&SaitoUTXOSetKey> = ks.iter().collect();
-                if uniq.len() != ks.len() && pre.staking_slips.iter().any(|k| pre.unspent_slips.contains(k)) {
-                    sim.rec.known.push((ID_SNAPSHOT, "staking transaction references the same output twice".to_string()));
+                if uniq.len() != ks.len() {
+                    sim.rec.failures.push("staking transaction references the same output twice".to_string());
+                }
+                if sim.w.staking_slips.iter().any(|k| sim.w.unspent_slips.contains(k)) || pre.get_available_balance() != 0 {
+                    sim.rec.failures.push("a staked slip of the snapshot is counted as spendable".to_string());
                 }
             } else {
                 let mut rows = observe(&sim.w, &mut sim.tab);
@@ -1730,7 +1713,7 @@ async fn case_node(rng: &mut Rng, dbg: bool, gp: u64, extra_len: u64, fees: bool
             }
             match check_ledger(&w, &node.blockchain.utxoset, latest, gp, &committed, false) {
                 Ok(()) => {}
-                Err((true, m)) => rec.known.push((ID_STALE, format!("after block {}: {}", b.id, m))),
+                Err((true, m)) => rec.failures.push(format!("after block {} (stale coordinates): {}", b.id, m)),
                 Err((false, m)) => rec.failures.push(format!("after block {}: {}", b.id, m)),
             }
         }
@@ -1740,13 +1723,6 @@ async fn case_node(rng: &mut Rng, dbg: bool, gp: u64, extra_len: u64, fees: bool
             let mut w = node.wallet_lock.write().await;
             let (pays, fee) = pick_request(rng, &w, latest, gp);
             let keys: Vec<SaitoPublicKey> = pays.iter().map(|_| if rng.chance(1, 2) { pk2 } else { pk3 }).collect();
-            // with overflow checks such a request panics and would end the chain here; the unit-level
-            // cases cover that panic, the release run covers the wrap
-            let fee_eff = if fee > w.get_available_balance() { 0 } else { fee };
-            let total: u128 = pays.iter().map(|p| *p as u128).sum::<u128>() + fee_eff as u128;
-            if dbg && total >= (1u128 << 64) {
-                continue;
-            }
             let call = CreateCall { keys, payments: pays, fee, latest, gp, single: rng.chance(1, 2) };
             let r = do_create(
                 &mut rec,
